@@ -685,3 +685,99 @@ def check_cache_keys(ctx, funcs: typing.Iterable[FuncInfo], rule="MEMO-key"):
       else:
         ctx.ok(rule, k, ctx.where(f.module, node), f"key `{short(key, 30)}` is not a value object")
   return n
+
+
+def check_independent_updates(ctx, f: FuncInfo, rule="INDEP"):
+  """`if A: update X  elif B: update Y` where A and B read disjoint state and X, Y are different
+  targets: the two updates are independent, so chaining them with `elif` loses the second one
+  whenever both conditions hold (the only child is both first and last; a region has both origin
+  and position; text is both underlined and italic)."""
+  def reads(test):
+    """The discriminants of a test: left operands of its comparisons and expressions used directly as truth values."""
+    out = set()
+
+    def walk(e):
+      if isinstance(e, ast.BoolOp):
+        for v in e.values:
+          walk(v)
+      elif isinstance(e, ast.UnaryOp) and isinstance(e.op, ast.Not):
+        walk(e.operand)
+      elif isinstance(e, ast.Compare):
+        l = e.left
+        while isinstance(l, ast.Call) and not l.args and isinstance(l.func, ast.Attribute) and False:
+          l = l.func.value
+        out.add(unparse(l))
+      else:
+        out.add(unparse(e))
+    walk(test)
+    return out
+
+  def writes(body):
+    out = set()
+    for st in body:
+      for n in ast.walk(st):
+        if isinstance(n, (ast.Assign, ast.AugAssign)):
+          for t in (n.targets if isinstance(n, ast.Assign) else [n.target]):
+            out.add(unparse(t))
+        elif isinstance(n, ast.Call) and isinstance(n.func, ast.Attribute) and n.func.attr in ("set_style", "append", "append_text", "compute") and n.args:
+          out.add(unparse(n.func) + "(" + unparse(n.args[0]))
+    return out
+  n = 0
+  for node in own_nodes(f.node):
+    if isinstance(node, ast.If) and len(node.orelse) == 1 and isinstance(node.orelse[0], ast.If):
+      a, b = node, node.orelse[0]
+      ra, rb = reads(a.test), reads(b.test)
+      wa, wb = writes(a.body), writes(b.body)
+      if not ra or not rb or not wa or not wb:
+        continue
+      n += 1
+      ctx.unit(f.module)
+      shared = ra & rb
+      independent = not shared and not (wa & wb) and not (ra & {w.split("(")[0] for w in wb}) and not any(isinstance(x, (ast.Return, ast.Raise, ast.Continue, ast.Break)) for st in a.body for x in ast.walk(st))
+      ctx.check(not independent, rule, f"{f.qualname}|{short(a.test, 40)} / elif {short(b.test, 40)}", ctx.where(f.module, b),
+                "the chained conditions share a subject (alternatives of one discriminant)",
+                f"`{short(a.test, 50)}` and `{short(b.test, 50)}` read unrelated state and update different targets ({sorted(wa)[:2]} vs {sorted(wb)[:2]}), but the second is an `elif` of the first: "
+                f"when both hold, the second update is skipped")
+  return n
+
+
+def check_stateless_instances(ctx, classes, rule="STATE-instance", setup=("__init__", "__post_init__"), allowed=None):
+  """Objects that are applied repeatedly (filters) keep no state between calls: outside the
+  constructor no method assigns an instance attribute or mutates a container held by one (directly
+  or through a local alias)."""
+  n = 0
+  for c in classes:
+    for m in c.methods.values():
+      if m.name in setup:
+        continue
+      aliases = {}
+      for st in own_nodes(m.node):
+        if isinstance(st, ast.Assign) and len(st.targets) == 1 and isinstance(st.targets[0], ast.Name) and isinstance(st.value, ast.Attribute) \
+            and isinstance(st.value.value, ast.Name) and st.value.value.id == "self":
+          aliases[st.targets[0].id] = unparse(st.value)
+      for st in own_nodes(m.node):
+        what = None
+        if isinstance(st, (ast.Assign, ast.AugAssign, ast.AnnAssign)):
+          for t in (st.targets if isinstance(st, ast.Assign) else [st.target]):
+            if isinstance(t, ast.Attribute) and isinstance(t.value, ast.Name) and t.value.id == "self":
+              what = f"assigns {unparse(t)}"
+            if isinstance(t, ast.Subscript):
+              b = t.value
+              if isinstance(b, ast.Attribute) and isinstance(b.value, ast.Name) and b.value.id == "self":
+                what = f"stores into {unparse(b)}"
+              elif isinstance(b, ast.Name) and b.id in aliases:
+                what = f"stores into {aliases[b.id]} (through `{b.id}`)"
+        elif isinstance(st, ast.Call) and isinstance(st.func, ast.Attribute) and st.func.attr in MUTATING:
+          b = st.func.value
+          if isinstance(b, ast.Attribute) and isinstance(b.value, ast.Name) and b.value.id == "self":
+            what = f"mutates {unparse(b)}"
+          elif isinstance(b, ast.Name) and b.id in aliases:
+            what = f"mutates {aliases[b.id]} (through `{b.id}`)"
+        if what and allowed and any(k in what for k in allowed):
+          ctx.ok(rule, f"{m.qualname}|{short(st, 50)}|allowed", ctx.where(c.module, st), "tabled: " + next(v for k, v in allowed.items() if k in what))
+          continue
+        if what:
+          n += 1
+          ctx.unit(c.module)
+          ctx.bad(rule, f"{m.qualname}|{short(st, 50)}", ctx.where(c.module, st), f"{m.short} {what}: the object is applied to many documents, and what it remembers from one changes the result for the next")
+  return n
